@@ -80,6 +80,8 @@ CFG = dict(
           "STATS skipped = fields of Parses that failed on purpose (unparsable winning text, missing -config file): the property is conditional on success; "
           "each case is one NewFlagSet + Parse; non-trivial = distinct case lines"),
     trusted_base=[HARNESS_TB, EXTRACT_TB,
+                  "the -config path is resolved by the world oracle w_file: '~/' expansion with the HOME of that moment, working directory and file system "
+                  "are outside the model (the harness spells the path absolute, relative and as ~/cfg.json under three different HOMEs, HOME unset/empty)",
                   "encoding/json is not modelled: the JSON overlay enters as the map field -> value the harness wrote into the JSON document",
                   "value texts outside Model/FlagValue.v's sub-language (all float64 texts, integers with '_', durations with '.', "
                   "base64 with CR/LF) are parsed by the Go standard library in the harness (oracle column of the case line)"],
